@@ -39,6 +39,7 @@ func (k Keeper) RandomIndex(seed *big.Int, total, count int) []int {
 		return idx
 	}
 	for count > 0 {
+		exhausted := seed.Sign() == 0
 		rs := int(new(big.Int).Mod(seed, big.NewInt(int64(mod))).Int64()) % total
 		seed = new(big.Int).Div(seed, big.NewInt(10))
 		duplicate := false
@@ -48,7 +49,20 @@ func (k Keeper) RandomIndex(seed *big.Int, total, count int) []int {
 			}
 		}
 		if duplicate {
-			continue
+			if !exhausted {
+				continue
+			}
+			// the seed was already exhausted when this index was drawn: every further draw would be
+			// 0 again, so take the next free index instead (total > count guarantees that one exists)
+			for duplicate {
+				rs = (rs + 1) % total
+				duplicate = false
+				for _, v := range idx {
+					if rs == v {
+						duplicate = true
+					}
+				}
+			}
 		}
 		idx = append(idx, rs)
 		count -= 1
